@@ -20,3 +20,6 @@ func Dial(context.Context, string, string) (net.Conn, error) { return nil, nil }
 
 // Fail is a failpoint; it never fails without the verif tag.
 func Fail(string) error { return nil }
+
+// Count tallies one expensive operation; nothing without the verif tag.
+func Count(string) {}
